@@ -1,10 +1,14 @@
 #!/bin/bash
-# Offline setup: warm the Go build cache for the harness module so the first check is fast.
+# Offline setup: warm the Go build cache (harness module, vrt runtime via overlay, instrumenter).
 set -u
 export GOFLAGS=-mod=mod GOPROXY=off GOSUMDB=off GOTOOLCHAIN=local
 ROOT="$(cd "$(dirname "$0")" && pwd)"
+SCR=/dev/shm; [ -d "$SCR" ] && [ -w "$SCR" ] || SCR="$ROOT/.work"
+W="$SCR/verif-setup-$$"; mkdir -p "$W"; trap 'rm -rf "$W"' EXIT
 cd "$ROOT/h" || exit 1
 cp /repo/go.sum go.sum
-go build ./... || exit 1
+python3 "$ROOT/tools/overlay.py" "$W/overlay.json" || exit 1
+go build -overlay "$W/overlay.json" -o "$W/out/" ./... || exit 1
+(cd "$ROOT/tools/vinstr" && go build -o "$W/vinstr" .) || exit 1
 mkdir -p "$ROOT/evidence" "$ROOT/replays"
 echo setup ok
